@@ -1693,7 +1693,8 @@ def build_date_delta_with_interval(
 ) -> t.Callable[[BuilderArgs], E | None]:
     def _builder(args: BuilderArgs) -> E | None:
         if len(args) < 2:
-            return None
+            # let the parser report the missing argument instead of handing it None
+            return expression_class(this=seq_get(args, 0))
 
         interval = args[1]
 
